@@ -69,3 +69,11 @@ Example ex_rc4_refill :
   let s3 := step Lbig cx true kx s2 (WriteReady 1000) in
   ws s3 = Idle /\ len (stream s3) = 17018 /\ kpos s3 = 17018.
 Proof. vm_compute. repeat split. Qed.
+
+(* chunk_*: a chunk is mapped while/after piece 0 is served; the written CHOKE releases it *)
+Example ex_chunk :
+  let s := run Lx cx false kz [Decide false; RecvRequest a; WriteReady 20] in
+  ws s = WPiece /\ upc s = Some 0 /\
+  let s2 := step Lx cx false kz (step Lx cx false kz s (Decide true)) (WriteReady 1000) in
+  choked s2 = true /\ send_choked s2 = false /\ upc s2 = None /\ queue s2 = [].
+Proof. vm_compute. repeat split. Qed.
